@@ -521,6 +521,10 @@ def _strbytes_method(slf, name):
     from .interp import deep_concrete
 
     def m(ctx, *a, **k):
+        if name == 'join' and len(a) == 1 and not isinstance(a[0], (str, bytes)):
+            # the items of a generator / list may be symbolic although the iterable object itself is an ordinary Python object
+            from .interp import Interp, Frame
+            a = (list(Interp(ctx, Frame({})).iter_values(a[0])),)
         if deep_concrete(a) and deep_concrete(k):
             from .interp import PyExc
             try:
@@ -836,8 +840,6 @@ def struct_pack(ctx, fmt, values):
             bv = lift(v)
             # struct pads/truncates to exactly cnt bytes
             ln = z3.Length(bv.t)
-            padded = z3.If(ln >= cnt, z3.SubSeq(bv.t, 0, cnt),
-                           z3.Concat(bv.t, _zeros_sym(cnt, ln)))
             if ctx.branch(ln == cnt):
                 out = out + bv
             else:
